@@ -854,21 +854,38 @@ def _run(ctx, pool, hello, has_cost, T):
                         "SystemExit and a 200 MiB resident-set spike; the battery's reference outcomes are taken by each worker "
                         "right after start-up and only items that behave there - rejected / same digest twice - are used)",
                         "harness/lenient_common.py (structural map)",
+                        "lean/PsdVerif/Model/PayloadCost*.lean, DescriptorCost.lean, EngineDataCost.lean, OpenCost.lean, OpenDispatch.lean "
+                        "(counting twins: proved to erase to the C01 payload models; checked against the real reader by open.cost)",
+                        "harness/extract_c06*.py (AST extraction of allocation sites, reader loops, registries, regex patterns)",
+                        "CPython's re: linear on the engine-data patterns (sufficient condition checked, not proved about the engine)",
                         "Linux RLIMIT_AS / VmHWM accounting"]
     ctx.assumptions = ["the property is observed through io.BytesIO (a declared length larger than the data returns only what is "
                        "there)", "time and memory limits are those of this run: 20 s wall clock, RLIMIT_AS baseline + 1200 MiB"]
     ctx.model_coverage = {
-        "modelled (theorems + correspondence)": "file skeleton reader PSD.read with payloads opaque: header and validators, colour "
-        "mode data, image resources blocks, layer and mask information, layer info, layer records, channel info, mask data, "
-        "blending ranges, names, tagged-block framing, channel image data, global layer mask info, image data",
-        "watchdog only (no model)": "every payload reader (descriptors, effects, adjustments, vector data, patterns, linked layers, "
-        "engine data, image-resource payloads), PSDImage._init (layer tree), and the export paths composite()/topil()/numpy() "
-        "with zlib, PIL, NumPy and the compiled _rle extension",
+        "modelled (theorems + correspondence)": "file skeleton reader PSD.read with payloads opaque (psd.dec): header and validators, "
+        "colour mode data, image resources blocks, layer and mask information, layer info, layer records, channel info, mask data, "
+        "blending ranges, names, tagged-block framing, channel image data, global layer mask info, image data; AND the whole typed "
+        "reader as a counting interpreter (open.cost, Model/OpenCost.lean + OpenDispatch.lean + OpenMain.lean): every class registered "
+        "in tagged_blocks.TYPES (87 keys) and image_resources.TYPES (50 ids) — the PCodec combinators, the hand-written readers of "
+        "units 2-10, the descriptor family, Lr16/Lr32 nesting on a fuel that stands for the recursion limit, the engine-data "
+        "tokenizer/parser: outcome class, final cursor, number of reads (<=) and bytes returned + copied (== on accepted files) "
+        "compared with the real typed PSD.read under a counting io.BytesIO",
+        "watchdog only (no model)": "PSDImage._init (layer tree) and the export paths composite()/topil()/numpy() with zlib, PIL, "
+        "NumPy and the compiled _rle extension; real time and memory of everything",
     }
     ctx.notes += [
-        "PARTIAL with respect to the property: the theorems bound the MODEL's steps / allocations / outcomes for the file "
-        "skeleton; real time, memory and interpreter crashes are runtime behaviour that only the watchdog observes, on the "
-        "inputs of this run.",
+        "PARTIAL with respect to the property: the theorems bound the MODEL's steps / allocations / outcomes (now for the whole "
+        "typed reader: Props/C06.open_steps_bound, ticks + bytes <= (2105 + 4n + 168 min(D, n/12)) n + 287 for every byte string); "
+        "real time, memory and interpreter crashes are runtime behaviour that only the watchdog observes, on the inputs of this run.",
+        "the cost model found two super-linear readers: the engine-data tokenizer copied the rest of the blob per token (repaired, "
+        "repo 725ecb0; hostile files enginedata-tokens-*), and SliceV6.read re-reads the rest of the Slices resource per slice "
+        "(known finding C06/open/read-volume/Slices; Props/C06.slices_not_linear / slices_quadratic_partial).",
+        "TRUSTED for the engine data: CPython's re does O(1) work per byte on the tokenizer's patterns; a decidable sufficient "
+        "condition (star height <= 1, disjoint FIRST sets, the one-versus-two tiling exception) is checked on the regenerated "
+        "patterns (Props/C06.engine_patterns_safe) and rejects the seeded variant of UTF16_END.",
+        "the allocation theorems count what fp.read RETURNS (io.BytesIO); through a buffered file object the declared length is "
+        "reserved first: the hand-made *-length-max files are also opened from a temporary file (known findings "
+        "C06/open-from-path/memory/*; Props/C06.declared_length_is_requested, alloc_sites_tied).",
         "the real parse of malformed bytes never runs in the harness process: PSD.read with raw payloads (for the "
         "correspondence) and PSDImage.open both run inside the guarded worker.",
         "opening never decompresses pixel data (ChannelData / ImageData keep the compressed bytes), so zlib bombs and "
